@@ -8,6 +8,7 @@ import (
 	"github.com/NethermindEth/juno/core"
 	"github.com/NethermindEth/juno/core/felt"
 	"github.com/NethermindEth/juno/db"
+	"verifharness/chain"
 )
 
 // decodeImage reads every index family of the image through the plain accessors and renders the
@@ -79,11 +80,65 @@ func (w *world) decodeImage(store db.KeyValueStore) (enc string, notes []string)
 				if len(bi.txs) == 0 {
 					add(3, bi)
 				}
-				if len(bi.txs) == 0 {
-					add(7, bi) // history entries are not decoded (C03/C04/C16)
-				}
 			} else {
 				unknown(4, n, "state update")
+			}
+		}
+		// 7 history: every generated block above genesis writes slot 1 of contract 0x100, so it owns the
+		// history entry keyed (0x100, 1, n). New state: the entry holds the block's own value, which
+		// identifies the version. Legacy state: it holds the OLD value, the same for every version of
+		// number n; the entry is attributed to the header (else state update) of that number.
+		{
+			var m *blkInfo
+			found := false
+			if w.seq.NewState {
+				_ = store.Get(db.ContractStorageHistoryAtBlockKey(chain.F(0x100), chain.F(1), n), func(v []byte) error {
+					found = true
+					val := new(felt.Felt).SetBytes(v)
+					for _, bi := range w.byNum[n] {
+						if bi.slot != 0 && chain.F(bi.slot).Equal(val) {
+							m = bi
+						}
+					}
+					return nil
+				})
+			} else if has, _ := store.Has(db.DeprecatedContractStorageHistoryAtBlockKey(chain.F(0x100), chain.F(1), n)); has {
+				found = true
+				if hd, err := core.GetBlockHeaderByNumber(r, n); err == nil {
+					m = w.reg[hexOf(hd.Hash)]
+				} else if su, err := core.GetStateUpdateByBlockNum(r, n); err == nil {
+					m = w.reg[hexOf(su.BlockHash)]
+				}
+				if m != nil && (m.num != n || m.slot == 0) {
+					m = nil
+				}
+			}
+			if !found && w.seq.NewState && n == 0 {
+				// genesis deploys contract 0x100: the new state backend records a class-hash history entry for it
+				// (the legacy backend records none for a deployment); same value for every version of block 0
+				if has, _ := store.Has(db.ContractClassHashHistoryAtBlockKey(chain.F(0x100), 0)); has {
+					found = true
+					if hd, err := core.GetBlockHeaderByNumber(r, n); err == nil {
+						m = w.reg[hexOf(hd.Hash)]
+					} else if su, err := core.GetStateUpdateByBlockNum(r, n); err == nil {
+						m = w.reg[hexOf(su.BlockHash)]
+					}
+				}
+			}
+			if found {
+				if m != nil {
+					add(7, m)
+				} else {
+					unknown(7, n, "storage history entry")
+				}
+			}
+		}
+		// blocks without a storage write have no history entry: vacuously present with their state update
+		// (base chain: no transactions) or with their tx-hash lookups (genesis of the short universe), i.e.
+		// with the family written/deleted in the same batches
+		if su, err := core.GetStateUpdateByBlockNum(r, n); err == nil {
+			if bi, ok := w.reg[hexOf(su.BlockHash)]; ok && bi.num == n && bi.slot == 0 && len(bi.txs) == 0 && !(w.seq.NewState && n == 0) {
+				add(7, bi)
 			}
 		}
 		// 5 commitments
@@ -127,7 +182,9 @@ func (w *world) decodeImage(store db.KeyValueStore) (enc string, notes []string)
 			}
 			if cnt == len(bi.txs) {
 				add(3, bi)
-				add(7, bi) // history entries are not decoded: they follow the tx-hash lookups (same batch in store, revert and prune)
+				if bi.slot == 0 && !(w.seq.NewState && bi.num == 0) {
+					add(7, bi)
+				}
 			} else if cnt > 0 {
 				notes = append(notes, fmt.Sprintf("tx-hash lookup of block %d partially present (%d of %d)", bi.num, cnt, len(bi.txs)))
 			}
